@@ -457,6 +457,11 @@ func (t *Tokenizer) Tokenize(input []byte) ([]models.TokenWithSpan, error) {
 				break
 			}
 
+			// Comments are captured separately and never produce a token
+			if t.skipComment() {
+				continue
+			}
+
 			// Check token count limit to prevent DoS attacks
 			if len(tokens) >= MaxTokens {
 				tokenErr = errors.TokenLimitReachedError(len(tokens)+1, MaxTokens, t.getCurrentPosition(), string(t.input))
@@ -597,6 +602,11 @@ func (t *Tokenizer) TokenizeContext(ctx context.Context, input []byte) ([]models
 				break
 			}
 
+			// Comments are captured separately and never produce a token
+			if t.skipComment() {
+				continue
+			}
+
 			// Check token count limit to prevent DoS attacks
 			if len(tokens) >= MaxTokens {
 				tokenErr = errors.TokenLimitReachedError(len(tokens)+1, MaxTokens, t.getCurrentPosition(), string(t.input))
@@ -678,6 +688,78 @@ func (t *Tokenizer) skipWhitespace() {
 		}
 		break
 	}
+}
+
+// skipComment consumes one line (--) or block (/* */) comment starting at the
+// current position and records it in t.Comments. It reports whether a comment
+// was consumed; the position is left unchanged otherwise.
+func (t *Tokenizer) skipComment() bool {
+	if t.pos.Index+1 >= len(t.input) {
+		return false
+	}
+	first, second := t.input[t.pos.Index], t.input[t.pos.Index+1]
+	commentStartIdx := t.pos.Index
+
+	if first == '-' && second == '-' {
+		commentStartPos := t.toSQLPosition(Position{Index: commentStartIdx})
+		t.pos.AdvanceRune('-', 1)
+		t.pos.AdvanceRune('-', 1)
+		// Skip until end of line or EOF
+		for t.pos.Index < len(t.input) {
+			cr, csize := utf8.DecodeRune(t.input[t.pos.Index:])
+			if cr == '\n' {
+				t.pos.AdvanceRune(cr, csize) // Skip the newline too
+				break
+			}
+			t.pos.AdvanceRune(cr, csize)
+		}
+		commentEndIdx := t.pos.Index
+		// Trim trailing newline from comment text
+		textEnd := commentEndIdx
+		if textEnd > 0 && t.input[textEnd-1] == '\n' {
+			textEnd--
+		}
+		t.Comments = append(t.Comments, models.Comment{
+			Text:   string(t.input[commentStartIdx:textEnd]),
+			Style:  models.LineComment,
+			Start:  commentStartPos,
+			End:    t.toSQLPosition(t.pos),
+			Inline: t.hasCodeBeforeOnLine(commentStartIdx),
+		})
+		return true
+	}
+
+	if first == '/' && second == '*' {
+		commentStartPos := t.toSQLPosition(Position{Index: commentStartIdx})
+		t.pos.AdvanceRune('/', 1)
+		t.pos.AdvanceRune('*', 1)
+		// Skip until */ or EOF
+		for t.pos.Index < len(t.input) {
+			cr, csize := utf8.DecodeRune(t.input[t.pos.Index:])
+			if cr == '*' {
+				t.pos.AdvanceRune(cr, csize)
+				if t.pos.Index < len(t.input) {
+					nr, ns := utf8.DecodeRune(t.input[t.pos.Index:])
+					if nr == '/' {
+						t.pos.AdvanceRune(nr, ns) // End of block comment
+						break
+					}
+				}
+			} else {
+				t.pos.AdvanceRune(cr, csize)
+			}
+		}
+		t.Comments = append(t.Comments, models.Comment{
+			Text:   string(t.input[commentStartIdx:t.pos.Index]),
+			Style:  models.BlockComment,
+			Start:  commentStartPos,
+			End:    t.toSQLPosition(t.pos),
+			Inline: t.hasCodeBeforeOnLine(commentStartIdx),
+		})
+		return true
+	}
+
+	return false
 }
 
 // nextToken picks out the next token from the input
@@ -1271,37 +1353,6 @@ func (t *Tokenizer) readPunctuation() (models.Token, error) {
 				}
 				return models.Token{Type: models.TokenTypeArrow, Value: "->"}, nil
 			}
-			// Check for line comment: --
-			if nxtR == '-' {
-				commentStartIdx := t.pos.Index - size // back to first '-'
-				commentStartPos := t.toSQLPosition(Position{Index: commentStartIdx})
-				t.pos.AdvanceRune(nxtR, nxtSize)
-				// Skip until end of line or EOF
-				for t.pos.Index < len(t.input) {
-					cr, csize := utf8.DecodeRune(t.input[t.pos.Index:])
-					if cr == '\n' {
-						t.pos.AdvanceRune(cr, csize) // Skip the newline too
-						break
-					}
-					t.pos.AdvanceRune(cr, csize)
-				}
-				commentEndIdx := t.pos.Index
-				// Trim trailing newline from comment text
-				textEnd := commentEndIdx
-				if textEnd > 0 && t.input[textEnd-1] == '\n' {
-					textEnd--
-				}
-				t.Comments = append(t.Comments, models.Comment{
-					Text:   string(t.input[commentStartIdx:textEnd]),
-					Style:  models.LineComment,
-					Start:  commentStartPos,
-					End:    t.toSQLPosition(t.pos),
-					Inline: t.hasCodeBeforeOnLine(commentStartIdx),
-				})
-				// Return the next token (skip the comment)
-				t.skipWhitespace()
-				return t.nextToken()
-			}
 		}
 		return models.Token{Type: models.TokenTypeMinus, Value: "-"}, nil
 	case '*':
@@ -1309,41 +1360,6 @@ func (t *Tokenizer) readPunctuation() (models.Token, error) {
 		return models.Token{Type: models.TokenTypeMul, Value: "*"}, nil
 	case '/':
 		t.pos.AdvanceRune(r, size)
-		if t.pos.Index < len(t.input) {
-			nxtR, nxtSize := utf8.DecodeRune(t.input[t.pos.Index:])
-			// Check for block comment: /*
-			if nxtR == '*' {
-				commentStartIdx := t.pos.Index - size // back to '/'
-				commentStartPos := t.toSQLPosition(Position{Index: commentStartIdx})
-				t.pos.AdvanceRune(nxtR, nxtSize)
-				// Skip until */ or EOF
-				for t.pos.Index < len(t.input) {
-					cr, csize := utf8.DecodeRune(t.input[t.pos.Index:])
-					if cr == '*' {
-						t.pos.AdvanceRune(cr, csize)
-						if t.pos.Index < len(t.input) {
-							nr, ns := utf8.DecodeRune(t.input[t.pos.Index:])
-							if nr == '/' {
-								t.pos.AdvanceRune(nr, ns) // End of block comment
-								break
-							}
-						}
-					} else {
-						t.pos.AdvanceRune(cr, csize)
-					}
-				}
-				t.Comments = append(t.Comments, models.Comment{
-					Text:   string(t.input[commentStartIdx:t.pos.Index]),
-					Style:  models.BlockComment,
-					Start:  commentStartPos,
-					End:    t.toSQLPosition(t.pos),
-					Inline: t.hasCodeBeforeOnLine(commentStartIdx),
-				})
-				// Return the next token (skip the comment)
-				t.skipWhitespace()
-				return t.nextToken()
-			}
-		}
 		return models.Token{Type: models.TokenTypeDiv, Value: "/"}, nil
 	case '=':
 		t.pos.AdvanceRune(r, size)
